@@ -256,9 +256,14 @@ def r_paths(ctx: Ctx, model, mach):
                                                   f"has unfetched rows of {e[1]} (fetchmany): the remaining rows are lost"))
                     if shape == "keyword" and fi.name in ("material_to_db", "adsorbate_to_db") and "overwrite=True" in vdesc and oc.kind == "ok":
                         ptab = fi.name.split("_")[0] + "_properties"
-                        okd = any(e[1] == "DELETE" and e[2] == ptab for e in sqls)
+                        # ... one that removes ALL stored properties of the item: keyed by the item only, not property by property (a
+                        # per-type delete leaves the properties the overwriting object does not have)
+                        def _where_cols(sql_):
+                            w = re.split(r"\bWHERE\b", sql_, maxsplit=1, flags=re.I)
+                            return set(re.findall(r"(\w+)\s*(?:=|\bIN\b|\bLIKE\b)", w[1], flags=re.I)) if len(w) == 2 else set()
+                        okd = any(e[1] == "DELETE" and e[2] == ptab and isinstance(e[3], str) and not ({"type", "value"} & _where_cols(e[3])) for e in sqls)
                         ctx.ob(okd, Finding("C08.D-delete", fi.where, f"{fi.name}|overwrite-keeps-old-properties",
-                                            f"{fi.name}({vdesc}) completes without DELETE FROM {ptab}: the properties stored before the "
+                                            f"{fi.name}({vdesc}) completes without a DELETE FROM {ptab} keyed by the item alone: the properties stored before the "
                                             "overwrite survive it (the stored item is not the one uploaded)"),
                                nontrivial_key=("overwrite-delete", fi.name, vdesc))
                     if shape == "keyword":
